@@ -972,7 +972,7 @@ class Text(JupyterMixin):
 
     def right_crop(self, amount: int = 1) -> None:
         """Remove a number of characters from the end of the text."""
-        max_offset = max(0, len(self.plain) - amount)
+        max_offset = min(len(self.plain), max(0, len(self.plain) - amount))
         _Span = Span
         self._spans[:] = [
             (
